@@ -24,7 +24,7 @@ Theorem C18_no_panic_guard : forall p, no_panic_b p = true -> crashed (run p) = 
 Proof. exact no_panic_guard. Qed.
 Print Assumptions C18_no_panic_guard.
 
-(** a panic happens (C03/C08 finding: the printer panics on an unchecked fragment): status 101, files stay *)
+(** what a panic looks like (stage answers with a panicking printer): status 101, files stay, listed nowhere *)
 Theorem C18_crash_witness :
   exists p, crashed (run p) = true /\ exit_status (run p) = 101 /\ clean p = false /\ outcome_written (run p) <> [].
 Proof. exact crash_witness. Qed.
@@ -159,17 +159,14 @@ Theorem C18_parse_error_at_end_of_input_located :
 Proof. exact parse_error_at_end_of_input_located. Qed.
 Print Assumptions C18_parse_error_at_end_of_input_located.
 
-(** still a finding: an error value of a printer reaches the driver without its position *)
-Theorem C18_generate_error_not_located_refuted :
+(** the former finding: a generate-stage printer error (custom scalar without a TypeScript type) is located *)
+Theorem C18_generate_error_located :
   forall f, exists texts,
     run_texts (scalar_witness f) = Some (1, texts)
-    /\ flat_map (locations_of (s "/w/schema.graphql")) texts = []
-    /\ match run (scalar_witness f) with
-       | Exit _ out _ _ => match f with Human => True | _ => exists t, parse_json out = Some t /\ (json_diags t = Some [] \/ rdjson_diags t = Some []) end
-       | Crash _ _ => False
-       end.
-Proof. exact generate_error_not_located_refuted. Qed.
-Print Assumptions C18_generate_error_not_located_refuted.
+    /\ flat_map (locations_of (s "/w/schema.graphql")) texts = [(1, 1)]
+    /\ outcome_written (run (scalar_witness f)) = [].
+Proof. exact generate_error_located. Qed.
+Print Assumptions C18_generate_error_located.
 
 (** every structured diagnostic of the json document names a file of the file store, labelled with the
     stage kind of a recorded error and carrying that error's line and column *)
